@@ -95,6 +95,7 @@ type Exchange struct {
 	Rx64, Tx64  ntp.Time64    // timestamps of the genuine reply
 	SentTx64    ntp.Time64    // the transmit time remembered for this exchange (what a later interleaved reply carries)
 	Genuine     []byte        // the genuine reply datagram
+	PrevGenuine []byte        // the genuine reply the model built for the request before this one (delivered or not): a datagram that may still be in flight
 	Sent        [][]byte      // datagrams actually sent, in order
 }
 
@@ -153,6 +154,7 @@ type Server struct {
 	// with Depth 1 an interleaved request that cites anything but the latest exchange gets a basic reply.
 	Depth int
 	order map[string][]ntp.Time64
+	lastGenuine []byte
 }
 
 // SetDepth sets the per-client memory depth for subsequent exchanges.
@@ -320,6 +322,9 @@ func (s *Server) loop() {
 			delete(s.byRx[client], s.order[client][0])
 			s.order[client] = s.order[client][1:]
 		}
+		s.mu.Unlock()
+		s.mu.Lock()
+		ex.PrevGenuine, s.lastGenuine = s.lastGenuine, ex.Genuine
 		s.mu.Unlock()
 		outs := []Out{{Data: ex.Genuine}}
 		if plan.Outs != nil {
